@@ -97,7 +97,9 @@ theorem good_checkMc (c : Option MultiClientCfg) (pn itf fc) (hg : ∀ m, c = so
             · exact good_mcErr
             · split
               · exact good_mcErr
-              · exact good_ok _
+              · split
+                · exact good_mcErr
+                · exact good_ok _
         · exact good_mcErr
 
 theorem good_mkDznPortItf (p i s mc) : Good (mkDznPortItf p i s mc) := by
